@@ -91,11 +91,21 @@ Definition mkc (m : list entry) : list kc := map (fun e => (ekey e, ecost e)) m.
 Definition remove_keys (vs : list N) (m : list entry) : list entry :=
   filter (fun e => negb (mem (ekey e) vs)) m.
 
-(* one shard of Cache::run_maintenance: drain <= 16 write events into the
-   policy; (no timer wheel, no TTI); cleanup_capacity_for_shard against the
-   global current_cost *)
+Definition resident (m : list entry) (k : N) : bool := existsb (fun e => N.eqb (ekey e) k) m.
+
+(* cleanup_capacity_for_shard (since fix 496bcb6): the cost of the entries the
+   victim keys actually removed from this shard's map *)
+Definition removed_cost (vs : list N) (m : list entry) : N :=
+  sumN (map ecost (filter (fun e => mem (ekey e) vs) m)).
+
+(* one shard of Cache::run_maintenance: drain <= 16 write events; a Write event
+   whose key is no longer resident is skipped (since fix 0a3449f), the others are
+   admitted to the policy with the event's cost; (no timer wheel, no TTI);
+   cleanup_capacity_for_shard against the global current_cost: the policy names
+   victims for current_cost - capacity, they are removed from this shard's map
+   and current_cost drops by the cost of what was actually removed *)
 Definition maint_one (cap : option N) (sh : shardst) (cost : N) : shardst * N :=
-  let ws := firstn drain_limit (sh_pend sh) in
+  let ws := filter (fun w => resident (sh_map sh) (fst w)) (firstn drain_limit (sh_pend sh)) in
   let pend' := skipn drain_limit (sh_pend sh) in
   match cap with
   | None => (mkSh (sh_map sh) (sh_pol sh) pend', cost)
@@ -103,10 +113,10 @@ Definition maint_one (cap : option N) (sh : shardst) (cost : N) : shardst * N :=
       let pol1 := admit_all ws (sh_pol sh) in
       if N.leb cost cp then (mkSh (sh_map sh) pol1 pend', cost)
       else
-        let '(pol2, vs, freed) := ll_evict (cost - cp) pol1 in
+        let '(pol2, vs, _) := ll_evict (cost - cp) pol1 in
         match vs with
         | [] => (mkSh (sh_map sh) pol2 pend', cost)
-        | _ => (mkSh (remove_keys vs (sh_map sh)) pol2 pend', wsub cost freed)
+        | _ => (mkSh (remove_keys vs (sh_map sh)) pol2 pend', wsub cost (removed_cost vs (sh_map sh)))
         end
   end.
 
